@@ -471,12 +471,25 @@ func (x *Exec) evSelector(st *State, e *ast.SelectorExpr) Val {
 		f := stt.Field(fi)
 		v, ok := x.vc.selField(cur, f.Name())
 		if !ok {
-			panic(unsupported(fmt.Sprintf("field %s of %s (sort %s)", f.Name(), t, cur.Sort)))
+			// a library struct kept opaque: its fields are uninterpreted functions of the value
+			v = x.opaqueField(cur, t, f)
 		}
 		cur = v
 		t = f.Type()
 	}
 	return cur
+}
+
+// opaqueField: field f of an opaque (library) struct value
+func (x *Exec) opaqueField(base Val, t types.Type, f *types.Var) Val {
+	fs := x.vc.sortOf(f.Type())
+	name := "fld_" + sanitize(typeKey(t)) + "__" + sanitize(f.Name())
+	if len(name) > 120 {
+		name = name[:120]
+	}
+	x.vc.declFun(name, []string{base.Sort}, fs)
+	x.vc.note("field " + f.Name() + " of library struct " + typeKey(t) + " read as an uninterpreted function (writes to it are not modelled)")
+	return Val{T: fmt.Sprintf("(%s %s)", name, base.T), Sort: fs, GoT: f.Type()}
 }
 
 func (x *Exec) evIndex(st *State, e *ast.IndexExpr) Val {
